@@ -18,9 +18,38 @@ from ..codec import doc_tokens, step_map
 from ..core import outcome
 
 
-def check_step(ctx, info, doc, step, res_doc, origin):
+def _spine(frag, left):
+    d, n = 0, (frag.first_child if left else frag.last_child)
+    while n is not None and not n.is_leaf and not n.is_text:
+        d += 1
+        n = n.first_child if left else n.last_child
+    return d
+
+
+def around_hyps(step):
+    """the executable side conditions of the C03 theorems (lean/PM/MapFold.lean: aroundWFB, aroundOKB, gapSepB, and noTouch of
+    the step's map) re-stated on the real step"""
+    rg = list(step.get_map().ranges)
+    no_touch = all(rg[j + 1] <= 0 or rg[i] + rg[i + 1] != rg[j] for i in range(0, len(rg), 3) for j in range(0, len(rg), 3))
+    sl = step.slice
+    wf = (sl.open_start <= _spine(sl.content, True) and sl.open_end <= _spine(sl.content, False) and step.insert <= sl.size
+          and step.from_ <= step.gap_from <= step.gap_to <= step.to)
+    ok = wf and (step.gap_from < step.gap_to or step.gap_to < step.to or step.insert == sl.size)
+    sep = step.gap_from < step.gap_to or step.gap_to == step.to
+    return {"wf": wf, "ok": ok, "sep": sep, "noTouch": no_touch}
+
+
+def check_step(ctx, info, doc, step, res_doc, origin, sink=None):
     m = step.get_map()
     ranges = list(m.ranges)
+    if isinstance(step, ReplaceAroundStep) and sink is not None:
+        # are the hypotheses of the theorems met by this (successfully applied) step?  measured on the model and on the step
+        hy = around_hyps(step)
+        cls = "primitive" if origin == "primitive" else "operations"
+        for k in ("wf", "ok", "sep"):
+            ctx.count("around_step_hypothesis_%s:%s:%s" % (k, cls, hy[k]))
+        sink[0].append({"op": "aroundHyps", "step": info.step(step)})
+        sink[1].append(("aroundHyps", {"schema": info.name, "step": step.to_json()}, hy))
     old = doc_tokens(doc)
     new = doc_tokens(res_doc)
     replay = {"schema": info.name, "doc": doc.to_json(), "step": step.to_json(), "origin": origin, "map": ranges}
@@ -260,7 +289,8 @@ def run(ctx):
             n0 = len(tr.steps)
             st, val, added = ops.run_op(tr, thunk)
             for k in range(n0, len(tr.steps)):
-                check_step(ctx, info, tr.docs[k], tr.steps[k], tr.docs[k + 1] if k + 1 < len(tr.docs) else tr.doc, name)
+                check_step(ctx, info, tr.docs[k], tr.steps[k], tr.docs[k + 1] if k + 1 < len(tr.docs) else tr.doc, name,
+                           sink=(reqs, metas))
         maps = [list(x.ranges) for x in tr.mapping.maps]
         exp = [list(s.get_map().ranges) for s in tr.steps]
         if maps != exp or tr.mapping.from_ != 0 or tr.mapping.to != len(tr.steps):
@@ -286,7 +316,7 @@ def run(ctx):
             reqs.append({"op": "getMap", "step": sj})
             metas.append(("getMap", {"schema": info.name, "step": step.to_json()}, step_map(m)))
         if st == "ok" and res.doc is not None:
-            check_step(ctx, info, d, step, res.doc, "primitive")
+            check_step(ctx, info, d, step, res.doc, "primitive", sink=(reqs, metas))
 
     fam = schemas.family()
     for si in range(ctx.budget(24, 60)):
